@@ -349,4 +349,16 @@ def saveRoute (s : Schema) (nz : List Col) : SaveRoute :=
 def saveAssignments (s : Schema) (selects omits : List Col) (nz : List Col) : List Col × List Col :=
   assignmentsOfStruct s s (saveSelects selects) omits true false nz nz
 
+/-- `Save(&v)`, struct with non-zero key, seen from the existing row carrying that key:
+    `updateTx := … Update …` changes it iff it exists and satisfies the chain's conditions;
+    `if updateTx.Error == nil && updateTx.RowsAffected == 0 && !updateTx.DryRun && !selectedUpdate {`
+    `  return tx.Session(&Session{SkipHooks: true}).Clauses(clause.OnConflict{UpdateAll: true}).Create(value) }`
+    — the fallback INSERT … ON CONFLICT (key) DO UPDATE hits the row with that key whatever the conditions say.
+    Returns whether the row is written. -/
+def saveWritesRow (rowExists condHolds selectedUpdate : Bool) : Bool :=
+  let updated := rowExists && condHolds
+  if updated then true
+  else if !selectedUpdate then rowExists      -- upsert fallback: conflict on the key ⇒ DO UPDATE
+  else false
+
 end Gorm.WriteSet
